@@ -37,3 +37,15 @@ package uci
 //@   concl [hard] body(a.hardLimit(stm)) == body(b.hardLimit(stm))
 //@   concl [soft] body(a.softLimit(stm)) == body(b.softLimit(stm))
 //@   concl [timed] body(a.timedMode(stm)) == body(b.timedMode(stm))
+//@
+//@ # ---- C11 (gate): the position command replaces the current board only by one that passed the
+//@ # ---- piece-count filter; a rejected FEN leaves the current board in place
+//@ func (*Driver).applyMoves view uci
+//@   trusted frame only: plays moves on the current board object, never re-points d.board
+//@   modifies d.board.*
+//@
+//@ func (*Driver).handlePosition
+//@   props C11
+//@   views uci
+//@   allow-extern fmt. strings. errors. io.
+//@   at-store board requires value != nil && !body(value.InvalidPieceCount())
